@@ -20,7 +20,8 @@ TECHNIQUE = 'fault enumeration (every truncation point, single-field corruptions
 RULE = ('files from the C01 layout lattice (<= ~1.5 kB); every truncation length 0..len-1 of each file '
         '(exhaustive per file) + single-field corruptions {$TOT,$PAR,$PnB,HEADER text/data offsets,'
         '$BEGINDATA/$ENDDATA} x {-1,+1,smaller,larger}; non-trivial = file has >=2 events; distinct = '
-        '(file digest, fault)')
+        '(file digest, fault)'
+        ' Also: an 8-byte CRC tail after the last segment (60% of files) and files with a second data set appended ($NEXTDATA), read by path and by handle at either position.')
 ASSUMPTIONS = ['segment order HEADER,TEXT,[supplemental TEXT],DATA,[padding]; ANALYSIS-after-DATA not judged',
                'a cut or TEXT-extent corruption that removes whole trailing optional keyword pairs is undetectable '
                'by any reader and accepted if the remaining pairs are unchanged',
